@@ -726,7 +726,7 @@ impl<'a, I: PrimInt, T: Clone> Iterator for IterDepth<'a, I, T>
                 .inner
                 .seek(
                     self.curr_merged_pos,
-                    self.curr_merged_pos + one::<I>(),
+                    self.curr_merged_pos.saturating_add(one::<I>()),
                     &mut self.cursor,
                 )
                 .count();
